@@ -1,5 +1,6 @@
 import PkgProofs.Props.Src.ReqParse
 import PkgProofs.Props.Src.MarkerParse
+import PkgProofs.Props.Src.ReqFuel
 /-!
 # The translated requirement parser = `Req.parseSource`
 
@@ -24,5 +25,13 @@ theorem parse_requirement_eq_model' (src : Str) (hfuel : Req.parseSource src ≠
       | .ok p => .ok (ofParsed p)
       | .error _ => .error "ParserSyntaxError" :=
   parse_requirement_eq_model markerParserAgrees src hfuel
+
+/-- … and it always does (`Src.parseSource_ne_fuel`): the translated parser *is* the model's parser -/
+theorem parse_requirement_eq_parseSource (src : Str) :
+    Gen.PySrc.parse_requirement (.str src) =
+      match Req.parseSource src with
+      | .ok p => .ok (ofParsed p)
+      | .error _ => .error "ParserSyntaxError" :=
+  parse_requirement_eq_model' src (parseSource_ne_fuel src)
 
 end Src
